@@ -236,7 +236,7 @@ func (c *StructCodec) Read(data []byte, ptr unsafe.Pointer, wt plenccore.WireTyp
 			// Field corresponding to index does not exist
 			n, err := plenccore.Skip(data[offset:], wt)
 			if err != nil {
-				return 0, fmt.Errorf("failed to skip field %d in %s. %w", index, c.rtype.Name(), err)
+				return 0, wrapf(err, "failed to skip field %d in %s. ", index, c.rtype.Name())
 			}
 			offset += n
 			continue
@@ -260,7 +260,7 @@ func (c *StructCodec) Read(data []byte, ptr unsafe.Pointer, wt plenccore.WireTyp
 		d := c.fieldsByIndex[index]
 		n, err := d.codec.Read(data[offset:fl], unsafe.Pointer(uintptr(ptr)+d.offset), wt)
 		if err != nil {
-			return 0, fmt.Errorf("failed reading field %d of %s. %w", index, c.rtype.Name(), err)
+			return 0, wrapf(err, "failed reading field %d of %s. ", index, c.rtype.Name())
 		}
 		offset += n
 	}
